@@ -20,6 +20,7 @@ import (
 type confinedSpec struct {
 	Pkg, Type, Field string
 	Writers          []string
+	Readers          bool // the list names the functions that may READ the field (any access counts)
 	Props            []string
 	Where            string
 }
@@ -69,6 +70,16 @@ func (e *Engine) confinedChecks(id string) []fdResult {
 			for _, b := range fn.Blocks {
 				for _, in := range b.Instrs {
 					hit := false
+					if cs.Readers {
+						// any address-of or load of the field counts as an access
+						if fa, ok := in.(*ssa.FieldAddr); ok && isField(fa) {
+							n++
+							if !allowed {
+								bad = append(bad, fmt.Sprintf("%s accesses %s.%s at %s", shortFn(fn), cs.Type, cs.Field, e.pos(in.Pos())))
+							}
+						}
+						continue
+					}
 					switch in := in.(type) {
 					case *ssa.Store:
 						hit = isField(in.Addr)
@@ -91,6 +102,10 @@ func (e *Engine) confinedChecks(id string) []fdResult {
 		sort.Strings(bad)
 		r := fdResult{Name: fmt.Sprintf("%s.%s/field-write-confined#1", cs.Type, cs.Field), Props: cs.Props,
 			Goal: fmt.Sprintf("%s.%s is written only by %s (%d write sites found)", cs.Type, cs.Field, strings.Join(cs.Writers, ", "), n), OK: len(bad) == 0 && n > 0}
+		if cs.Readers {
+			r.Name = fmt.Sprintf("%s.%s/field-access-confined#1", cs.Type, cs.Field)
+			r.Goal = fmt.Sprintf("%s.%s is accessed only by %s (%d access sites found)", cs.Type, cs.Field, strings.Join(cs.Writers, ", "), n)
+		}
 		if n == 0 {
 			r.Detail = "no write site found at all (contract out of date?)"
 		} else {
